@@ -880,3 +880,23 @@ def eval_bool_paths(body, limit=4000):
 
     walk(0, {}, [], {0})
     return out
+
+
+def resolve_to_root(facts, body, e, depth=4):
+    """follow closure captures outwards: an expression that is (a view of) an upvar is replaced by the captured
+    expression in the enclosing body, repeatedly. Returns (body, E)."""
+    cur_b, cur = body, e
+    for _ in range(depth):
+        s = cur.strip()
+        if s.kind == 'place' and s.root[0] == 'upvar' and cur_b.kind == 'Closure':
+            pb, pe = upvar_expr(facts, cur_b, s.root[1])
+            if pe is None:
+                return cur_b, cur
+            # re-apply the remaining field path
+            pe_s = pe.strip()
+            if s.fields and pe_s.kind == 'place':
+                pe_s = E('place', root=pe_s.root, fields=tuple(pe_s.fields) + tuple(s.fields))
+            cur_b, cur = pb, pe_s
+        else:
+            return cur_b, cur
+    return cur_b, cur
